@@ -400,3 +400,77 @@ func Verif_C17_U4_DeduplicatingThreeCallers() {
 	}
 	vnd.Cover("u4-three-callers")
 }
+
+// verifSlotCheckingBase is a base replicator that, whenever it is asked to copy,
+// checks that the caller holds the (single) concurrency slot.
+type verifSlotCheckingBase struct {
+	sem       *semaphore.Weighted
+	sink      *verifstub.Model
+	objs      []verifstub.Object
+	calls     int
+	unguarded bool
+	fail      bool
+}
+
+func (b *verifSlotCheckingBase) check() {
+	b.calls++
+	if b.sem.TryAcquire(1) {
+		b.unguarded = true
+		b.sem.Release(1)
+	}
+}
+
+func (b *verifSlotCheckingBase) ReplicateSingle(ctx context.Context, d digest.Digest) buffer.Buffer {
+	b.check()
+	return buffer.NewBufferFromError(status.Error(codes.Internal, "verif: not expected"))
+}
+
+func (b *verifSlotCheckingBase) ReplicateComposite(ctx context.Context, p, c digest.Digest, s slicing.BlobSlicer) buffer.Buffer {
+	b.check()
+	return buffer.NewBufferFromError(status.Error(codes.Internal, "verif: not expected"))
+}
+
+func (b *verifSlotCheckingBase) ReplicateMultiple(ctx context.Context, digests digest.Set) error {
+	b.check()
+	if b.fail {
+		return status.Error(codes.Unavailable, "verif: copy failed")
+	}
+	for _, d := range digests.Items() {
+		for i, o := range b.objs {
+			if o.Digest == d {
+				b.sink.Present[i] = true
+			}
+		}
+	}
+	return nil
+}
+
+// Verif_C17_U5_EveryCopyHoldsASlot: the concurrency-limiting replicator, one
+// caller, each of its three operations: whenever the underlying replicator is
+// asked to copy, the caller holds a slot of the semaphore (so that "at most N
+// copies at a time" follows for any number of callers), and the slot is free
+// again when the operation has returned - also when the copy fails.
+func Verif_C17_U5_EveryCopyHoldsASlot() {
+	ctx := context.Background()
+	objs := verifstub.Universe("inst", 2)
+	sink := verifstub.NewModel("sink", objs)
+	sem := semaphore.NewWeighted(1)
+	base := &verifSlotCheckingBase{sem: sem, sink: sink, objs: objs, fail: vnd.Choose(2) == 1}
+	br := NewConcurrencyLimitingBlobReplicator(base, sink, sem)
+	d := objs[vnd.Choose(2)].Digest
+	switch vnd.Choose(3) {
+	case 0:
+		vnd.Cover("u5-single")
+		br.ReplicateSingle(ctx, d).Discard()
+	case 1:
+		vnd.Cover("u5-multiple")
+		br.ReplicateMultiple(ctx, digest.NewSetBuilder(2).Add(objs[0].Digest).Add(objs[1].Digest).Build())
+	case 2:
+		vnd.Cover("u5-composite")
+		br.ReplicateComposite(ctx, d, d, verifSlicer{}).Discard()
+	}
+	vnd.Assert(base.calls == 1, "the underlying replicator was not asked exactly once")
+	vnd.Assert(!base.unguarded, "the underlying replicator was asked to copy while the caller held no concurrency slot")
+	free := sem.TryAcquire(1)
+	vnd.Assert(free, "the concurrency slot is still taken after the operation returned")
+}
